@@ -4,6 +4,9 @@ import (
 	"encoding/json"
 	"fmt"
 	"os"
+	"path/filepath"
+	"sort"
+	"strings"
 )
 
 type allowEntry struct {
@@ -54,35 +57,570 @@ func (al *allowList) cleanReviewed(key string) bool {
 }
 
 type result struct {
-	lines                                                                                          []string
-	nodes, useTotal, useCert, useAllowed, useOpen, storeTotal, storeOpen                           int
+	lines                                                                                      []string
+	nodes, useTotal, useCert, useAllowed, useOpen, storeTotal, storeOpen                       int
 	indexTotal, indexOpen, assertTotal, assertOpen, convTotal, convOpen, panicTotal, panicOpen int
 }
 
+func coqStr(s string) string { return "\"" + strings.ReplaceAll(s, "\"", "\"\"") + "\"" }
+
+func coqBool(b bool) string {
+	if b {
+		return "true"
+	}
+	return "false"
+}
+
+func (a *analysis) coqArg(op opnd) string {
+	switch op.k {
+	case opGood:
+		return "AGood"
+	case opNil:
+		return "ANil"
+	}
+	return fmt.Sprintf("AV %d", op.v)
+}
+
+func (a *analysis) coqInstr(n *node) string {
+	switch n.kind {
+	case kSet:
+		var r string
+		switch n.rhs {
+		case rAlloc:
+			r = "RAlloc"
+		case rNil:
+			r = "RNil"
+		case rCopy:
+			r = fmt.Sprintf("(RCopy %d)", n.y)
+		case rUnknown:
+			r = "RUnknown"
+		case rUnknownDirty:
+			r = "RUnknownDirty"
+		case rConv:
+			r = fmt.Sprintf("(RConv %d)", n.y)
+		case rNormalize:
+			r = fmt.Sprintf("(RNormalize %d)", n.y)
+		case rAssert:
+			r = fmt.Sprintf("(RAssert %d %s)", n.y, coqBool(n.toIface))
+		}
+		return fmt.Sprintf("ISet %d %s %d", n.x, r, n.s1.id)
+	case kGuard:
+		return fmt.Sprintf("IGuard %d %d %d", n.x, n.s1.id, n.s2.id)
+	case kTypeTest:
+		return fmt.Sprintf("ITypeTest %d %d %s %d %d", n.x, n.y, coqBool(n.toIface), n.s1.id, n.s2.id)
+	case kUse:
+		return fmt.Sprintf("IUse %d %d %d", n.x, n.site.id, n.s1.id)
+	case kStore:
+		m := [...]string{"SStrict", "SClean", "SDirty"}[n.mode]
+		return fmt.Sprintf("IStore %d %s %d %d", n.x, m, n.site.id, n.s1.id)
+	case kCall:
+		var as, rs []string
+		for _, op := range n.args {
+			as = append(as, a.coqArg(op))
+		}
+		for _, r := range n.rets {
+			if r < 0 {
+				rs = append(rs, "None")
+			} else {
+				rs = append(rs, fmt.Sprintf("Some %d", r))
+			}
+		}
+		return fmt.Sprintf("ICall %d [%s] [%s] %d", n.callee.id, strings.Join(as, "; "), strings.Join(rs, "; "), n.s1.id)
+	case kBranch:
+		return fmt.Sprintf("IBranch %d %d", n.s1.id, n.s2.id)
+	case kRet:
+		var as []string
+		for _, op := range n.args {
+			as = append(as, a.coqArg(op))
+		}
+		return fmt.Sprintf("IRet [%s]", strings.Join(as, "; "))
+	}
+	return "IBranch 0 0"
+}
+
+func avList(nn, cl []bool) string {
+	var xs []string
+	for i := range nn {
+		xs = append(xs, fmt.Sprintf("(%s, %s)", coqBool(nn[i]), coqBool(cl[i])))
+	}
+	return "[" + strings.Join(xs, "; ") + "]"
+}
+
+type jsonSite struct {
+	ID     int      `json:"id"`
+	Key    string   `json:"key"`
+	Kind   string   `json:"kind"`
+	What   string   `json:"what"`
+	Pos    string   `json:"pos"`
+	Status string   `json:"status"` // certified, reviewed, open
+	Mode   string   `json:"mode,omitempty"`
+	Class  string   `json:"class,omitempty"`
+	Why    string   `json:"why,omitempty"`
+	Path   []string `json:"path,omitempty"`
+}
+
+type jsonConv struct {
+	Key     string `json:"key"`
+	Context string `json:"context"`
+	Pos     string `json:"pos"`
+	Status  string `json:"status"` // constant, certain, ret-normalized, reviewed, open
+}
+
+type jsonFunc struct {
+	Name    string   `json:"name"`
+	ID      int      `json:"id"`
+	Nodes   int      `json:"nodes"`
+	Vars    int      `json:"vars"`
+	Params  []string `json:"params"`
+	Results []string `json:"results"`
+}
+
+func specStr(nn, cl bool) string {
+	switch {
+	case nn && cl:
+		return "usable"
+	case nn:
+		return "not-nil-but-maybe-typed-nil"
+	case cl:
+		return "maybe-nil"
+	}
+	return "maybe-nil-or-typed-nil"
+}
+
 func (a *analysis) emitAll(out, rep string, allow *allowList, inv *inventory, rounds int) *result {
+	pk := a.pk
 	r := &result{}
+	// ---- verdicts for the graph sites ----
+	allow1 := map[int]bool{} // C01
+	allow3 := map[int]bool{} // C03
+	var jsites []*jsonSite
+	type allowedRow struct {
+		id  int
+		key string
+		why string
+	}
+	var rows1, rows3 []allowedRow
+	for _, s := range a.sites {
+		js := &jsonSite{ID: s.id, Key: s.key, Kind: s.kind, What: s.what, Pos: pk.posString(s.pos), Class: s.class}
+		cert := a.siteCertified(s)
+		switch s.kind {
+		case "store":
+			r.storeTotal++
+			js.Mode = [...]string{"strict", "clean", "dirty"}[s.node.mode]
+			switch {
+			case cert:
+				js.Status = "certified"
+			case allow.store[s.key] != nil:
+				e := allow.store[s.key]
+				e.used = true
+				js.Status = "reviewed"
+				js.Why = e.Claim + ": " + e.Why
+				allow3[s.id] = true
+				rows3 = append(rows3, allowedRow{s.id, s.key, js.Why})
+				if e.Claim == "never-typed-nil" {
+					allow1[s.id] = true
+					rows1 = append(rows1, allowedRow{s.id, s.key, js.Why})
+				}
+			default:
+				js.Status = "open"
+				r.storeOpen++
+				js.Path = a.whyBad(s.fn, s.node, s.node.x)
+				r.lines = append(r.lines, fmt.Sprintf("STORE(%s) %s  [%s] %s", js.Mode, s.key, s.what, js.Pos))
+			}
+			// a reviewed claim only-with-error on a store into a clean class would be unsound for C01:
+			// the class was made dirty by the main loop in that case, so mode is dirty here.
+		default:
+			r.useTotal++
+			switch {
+			case cert:
+				js.Status = "certified"
+				r.useCert++
+			case allow.use[s.key] != nil:
+				e := allow.use[s.key]
+				e.used = true
+				js.Status = "reviewed"
+				js.Why = e.Why
+				r.useAllowed++
+				allow1[s.id] = true
+				allow3[s.id] = true
+				rows1 = append(rows1, allowedRow{s.id, s.key, e.Why})
+				rows3 = append(rows3, allowedRow{s.id, s.key, e.Why})
+				js.Path = a.whyBad(s.fn, s.node, s.node.x)
+			default:
+				js.Status = "open"
+				r.useOpen++
+				js.Path = a.whyBad(s.fn, s.node, s.node.x)
+				r.lines = append(r.lines, fmt.Sprintf("USE %s  [%s; operand %s] %s", s.key, s.what, s.opstr, js.Pos))
+			}
+		}
+		jsites = append(jsites, js)
+	}
+	bad1 := a.selfCheck(allow1, false)
+	bad3 := a.selfCheck(allow3, true)
+
+	// ---- conversion sites ----
+	convReviewed := map[string]*allowEntry{}
+	for _, e := range allow.Conv {
+		convReviewed[e.Key] = e
+	}
+	normalized := a.normalizedCallees()
+	var jconvs []*jsonConv
+	type convRow struct {
+		key    string
+		status int
+		fn, pc int
+	}
+	var convRows []convRow
+	for _, fi := range a.funcs {
+		for _, c := range fi.g.convs {
+			r.convTotal++
+			jc := &jsonConv{Key: c.key, Context: c.context, Pos: pk.posString(c.pos)}
+			row := convRow{key: c.key, fn: fi.id}
+			switch {
+			case c.node == nil:
+				jc.Status = "constant"
+				row.status = 0
+			default:
+				row.status = 1
+				row.pc = c.node.id
+				n := c.node
+				switch {
+				case n.nn.has(n.y) && n.cl.has(n.y):
+					jc.Status = "certain"
+				case n.s1.kind == kRet && len(n.s1.args) == 1 && n.s1.args[0].k == opVar && n.s1.args[0].v == n.x && normalized[fi]:
+					jc.Status = "ret-normalized"
+				case convReviewed[c.key] != nil:
+					convReviewed[c.key].used = true
+					jc.Status = "reviewed"
+				default:
+					jc.Status = "open"
+					r.convOpen++
+					r.lines = append(r.lines, fmt.Sprintf("CONV %s %s", c.key, jc.Pos))
+				}
+			}
+			jconvs = append(jconvs, jc)
+			convRows = append(convRows, row)
+		}
+	}
+
+	// ---- inventories ----
+	reviewed := func(list []*allowEntry) map[string]*allowEntry {
+		m := map[string]*allowEntry{}
+		for _, e := range list {
+			m[e.Key] = e
+		}
+		return m
+	}
+	idxRev, asRev, paRev := reviewed(allow.Index), reviewed(allow.Assert), reviewed(allow.Panic)
+	count := func(ss []*invSite, rev map[string]*allowEntry, kind string, total, open *int) {
+		for _, s := range ss {
+			*total++
+			if s.Guard == "unguarded" || kind == "PANIC" {
+				if e := rev[s.Key]; e != nil {
+					e.used = true
+					continue
+				}
+				*open++
+				r.lines = append(r.lines, fmt.Sprintf("%s %s %s %s", kind, s.Key, s.Detail, s.Pos))
+			}
+		}
+	}
+	count(inv.index, idxRev, "INDEX", &r.indexTotal, &r.indexOpen)
+	count(inv.assert, asRev, "ASSERT", &r.assertTotal, &r.assertOpen)
+	count(inv.panics, paRev, "PANIC", &r.panicTotal, &r.panicOpen)
+
+	// ---- ParserNil.v ----
+	var sb strings.Builder
+	sb.WriteString("(* GENERATED by /verif/translator/cmd/nilgen from /repo/parser -- do not edit. *)\n")
+	sb.WriteString("From Coq Require Import List NArith String.\nFrom DC Require Import Nil.NilLang.\nImport ListNotations.\nLocal Open Scope N_scope.\n\n")
 	for _, fi := range a.funcs {
 		r.nodes += len(fi.g.nodes)
 	}
-	for _, s := range a.sites {
-		c := a.siteCertified(s)
-		if s.kind == "store" {
-			r.storeTotal++
-			if !c {
-				r.storeOpen++
-				r.lines = append(r.lines, fmt.Sprintf("STORE %s  [%s] %s", s.key, s.what, a.pk.posString(s.pos)))
+	fmt.Fprintf(&sb, "(* %d functions reachable from %s, %d nodes, %d use sites, %d store sites *)\n", len(a.funcs), a.entry.name, r.nodes, r.useTotal, r.storeTotal)
+	var strict, dirty []string
+	for c := range pk.strict {
+		strict = append(strict, c)
+	}
+	for c := range pk.dirty {
+		dirty = append(dirty, c)
+	}
+	sort.Strings(strict)
+	sort.Strings(dirty)
+	fmt.Fprintf(&sb, "(* strict cell classes (loads are RAlloc, stores SStrict): %s *)\n", strings.Join(strict, " "))
+	fmt.Fprintf(&sb, "(* dirty cell classes (loads are RUnknownDirty, stores SDirty): %s *)\n", strings.Join(dirty, " "))
+	sb.WriteString("Local Notation nd i a b := (mkNode i a b) (only parsing).\n\n")
+	for _, fi := range a.funcs {
+		g := fi.g
+		sp := a.specs[fi]
+		var vs []string
+		for i, v := range g.vars {
+			vs = append(vs, fmt.Sprintf("%d:%s", i, v.name))
+		}
+		fmt.Fprintf(&sb, "(* %d: %s   vars %s *)\n", fi.id, fi.name, strings.Join(vs, " "))
+		fmt.Fprintf(&sb, "Definition f%d : func := mkFunc (mkSpec %s %s) [\n", fi.id, avList(sp.pNN, sp.pCL), avList(sp.rNN, sp.rCL))
+		for i, n := range g.nodes {
+			sep := ";"
+			if i == len(g.nodes)-1 {
+				sep = ""
 			}
+			cm := ""
+			if n.site != nil {
+				cm = " (* " + strings.ReplaceAll(n.site.key, "*)", "* )") + " *)"
+			}
+			fmt.Fprintf(&sb, "  nd (%s) %s %s%s%s\n", a.coqInstr(n), n.nn.big().String(), n.cl.big().String(), sep, cm)
+		}
+		sb.WriteString("].\n")
+	}
+	sb.WriteString("\nDefinition parser_nil : prog := mkProg [")
+	for i := range a.funcs {
+		if i > 0 {
+			sb.WriteString("; ")
+		}
+		fmt.Fprintf(&sb, "f%d", i)
+	}
+	fmt.Fprintf(&sb, "] %d.\n\n", a.entry.id)
+	fid := func(name string) int {
+		if fi := pk.funcs[name]; fi != nil && fi.reach {
+			return fi.id
+		}
+		return 1 << 30 // absent: the lookup fails and the obligation with it
+	}
+	fmt.Fprintf(&sb, "Definition fn_Parse : N := %d.\nDefinition fn_ParseStatements : N := %d.\nDefinition fn_parseStatement : N := %d.\n\n", fid("Parse"), fid("ParseStatements"), fid("parseStatement"))
+	// sites that are not certified (the only ones a reviewed list may name)
+	sb.WriteString("Local Open Scope string_scope.\n")
+	sb.WriteString("(* the graph sites the certificate does not cover: (site, key) *)\nDefinition uncertified_sites : list (N * string) := [\n")
+	first := true
+	for _, js := range jsites {
+		if js.Status == "certified" {
 			continue
 		}
-		r.useTotal++
-		if c {
-			r.useCert++
-		} else {
-			r.useOpen++
-			r.lines = append(r.lines, fmt.Sprintf("USE %s  [%s; operand %s] %s", s.key, s.what, s.opstr, a.pk.posString(s.pos)))
+		if !first {
+			sb.WriteString(";\n")
+		}
+		first = false
+		fmt.Fprintf(&sb, "  (%d%%N, %s)", js.ID, coqStr(js.Key))
+	}
+	sb.WriteString("\n].\n\n")
+	// statement stores of ParseStatements: the appended value must be usable (C03: no nil statement)
+	sb.WriteString("(* stores into the statement list returned by ParseStatements: (function, node) *)\nDefinition result_stores : list (N * N) := [")
+	first = true
+	if ps := pk.funcs["ParseStatements"]; ps != nil && ps.reach {
+		for _, s := range ps.g.stores {
+			if s.class == "elem:ast.Statement" {
+				if !first {
+					sb.WriteString("; ")
+				}
+				first = false
+				fmt.Fprintf(&sb, "(%d%%N, %d%%N)", ps.id, s.node.id)
+			}
 		}
 	}
-	bad := a.selfCheck(map[int]bool{})
-	_ = bad
+	sb.WriteString("].\n\n")
+	emitInv := func(name, doc string, ss []*invSite) {
+		fmt.Fprintf(&sb, "(* %s: (key, guard) *)\nDefinition %s : list (string * string) := [\n", doc, name)
+		sorted := append([]*invSite{}, ss...)
+		sortSites(sorted)
+		for i, s := range sorted {
+			sep := ";"
+			if i == len(sorted)-1 {
+				sep = ""
+			}
+			fmt.Fprintf(&sb, "  (%s, %s)%s\n", coqStr(s.Key), coqStr(s.Guard), sep)
+		}
+		sb.WriteString("].\n\n")
+	}
+	emitInv("index_sites", "index and slice expressions on slices, strings, arrays", inv.index)
+	emitInv("assert_sites", "type assertions without comma-ok", inv.assert)
+	emitInv("panic_sites", "explicit panics and integer divisions by a non-constant", inv.panics)
+	sb.WriteString("(* implicit pointer -> interface conversions: (key, status, function, node); status 0: the operand is a\n   composite literal / allocation; status 1: the node is [ISet _ (RConv y) _] *)\n")
+	sb.WriteString("Definition conv_sites : list (string * N * N * N) := [\n")
+	for i, c := range convRows {
+		sep := ";"
+		if i == len(convRows)-1 {
+			sep = ""
+		}
+		fmt.Fprintf(&sb, "  (%s, %d%%N, %d%%N, %d%%N)%s\n", coqStr(c.key), c.status, c.fn, c.pc, sep)
+	}
+	sb.WriteString("].\n")
+	writeIfChanged(filepath.Join(out, "ParserNil.v"), []byte(sb.String()))
+
+	// ---- ParserNilAllowed.v ----
+	sb.Reset()
+	sb.WriteString("(* GENERATED by /verif/translator/cmd/nilgen from /verif/checks/c01_reviewed_sites.json -- do not edit.\n")
+	sb.WriteString("   Every entry is a REVIEWED CLAIM that weakens the theorems of Properties/C01_nil.v and C03_nil.v. *)\n")
+	sb.WriteString("From Coq Require Import List NArith String.\nImport ListNotations.\nLocal Open Scope string_scope.\n\n")
+	emitRows := func(name, doc string, rows []allowedRow) {
+		fmt.Fprintf(&sb, "(* %s *)\nDefinition %s : list (N * string) := [\n", doc, name)
+		for i, rw := range rows {
+			sep := ";"
+			if i == len(rows)-1 {
+				sep = ""
+			}
+			fmt.Fprintf(&sb, "  (%d%%N, %s)%s (* %s *)\n", rw.id, coqStr(rw.key), sep, strings.ReplaceAll(rw.why, "*)", "* )"))
+		}
+		sb.WriteString("].\n\n")
+	}
+	emitRows("reviewed_c01", "use sites whose operand is claimed never nil, store sites claimed never to store a typed nil", rows1)
+	emitRows("reviewed_c03", "reviewed_c01 plus the store sites claimed to store a typed nil only after a parse error was recorded", rows3)
+	emitKeys := func(name, doc string, es []*allowEntry) {
+		fmt.Fprintf(&sb, "(* %s *)\nDefinition %s : list string := [\n", doc, name)
+		for i, e := range es {
+			sep := ";"
+			if i == len(es)-1 {
+				sep = ""
+			}
+			fmt.Fprintf(&sb, "  %s%s (* %s *)\n", coqStr(e.Key), sep, strings.ReplaceAll(e.Why, "*)", "* )"))
+		}
+		sb.WriteString("].\n\n")
+	}
+	emitKeys("reviewed_index", "index/slice expressions reviewed as in range", allow.Index)
+	emitKeys("reviewed_assert", "unchecked type assertions reviewed as never failing", allow.Assert)
+	emitKeys("reviewed_panic", "explicit panics / divisions reviewed as unreachable / non-zero", allow.Panic)
+	emitKeys("reviewed_conv", "pointer -> interface conversions reviewed (operand never nil, or the typed nil is harmless)", allow.Conv)
+	writeIfChanged(filepath.Join(out, "ParserNilAllowed.v"), []byte(sb.String()))
+
+	// ---- AstSchema.v ----
+	sc := pk.buildSchema(a)
+	sb.Reset()
+	sb.WriteString("(* GENERATED by /verif/translator/cmd/nilgen from /repo/ast (and the stores of /repo/parser) -- do not edit. *)\n")
+	sb.WriteString("From Coq Require Import List NArith String.\nFrom DC Require Import Nil.SchemaLang.\nImport ListNotations.\nLocal Open Scope string_scope.\n\n")
+	sb.WriteString("(* every struct type: name, custom MarshalJSON?, index of the field whose non-finite float64 the custom\n   marshaller replaces by a string (None if there is none), fields (name, type, skipped by json:\"-\") *)\n")
+	sb.WriteString("Definition ast_structs : list sdecl := [\n")
+	for i, ss := range sc.Structs {
+		sep := ";"
+		if i == len(sc.Structs)-1 {
+			sep = ""
+		}
+		fix := "None"
+		if ss.FixField >= 0 {
+			fix = fmt.Sprintf("(Some %d%%nat)", ss.FixField)
+		}
+		var fs []string
+		for _, f := range ss.Fields {
+			fs = append(fs, fmt.Sprintf("mkField %s %s %s", coqStr(f.Name), f.Coq, coqBool(f.Skipped)))
+		}
+		fmt.Fprintf(&sb, "  mkDecl %s %s %s [\n    %s]%s\n", coqStr(ss.Name), coqBool(ss.Custom), fix, strings.Join(fs, ";\n    "), sep)
+	}
+	sb.WriteString("].\n\n(* the dynamic types behind every non-empty interface type used by a field (closed world: package ast) *)\n")
+	sb.WriteString("Definition ast_impls : list (string * list jtype) := [\n")
+	var inames []string
+	for n := range sc.impls {
+		inames = append(inames, n)
+	}
+	sort.Strings(inames)
+	for i, n := range inames {
+		sep := ";"
+		if i == len(inames)-1 {
+			sep = ""
+		}
+		fmt.Fprintf(&sb, "  (%s, [%s])%s\n", coqStr(n), strings.Join(sc.impls[n], "; "), sep)
+	}
+	sb.WriteString("].\n\n(* the static types that package parser stores into interface{} cells (Literal.Value) *)\n")
+	fmt.Fprintf(&sb, "Definition any_types : list jtype := [%s].\n", strings.Join(sc.anyCoq, "; "))
+	writeIfChanged(filepath.Join(out, "AstSchema.v"), []byte(sb.String()))
+
+	// ---- report ----
+	var jfuncs []*jsonFunc
+	for _, fi := range a.funcs {
+		sp := a.specs[fi]
+		jf := &jsonFunc{Name: fi.name, ID: fi.id, Nodes: len(fi.g.nodes), Vars: len(fi.g.vars)}
+		for i, p := range trackedParams(fi.sig) {
+			nm := "recv"
+			if p.idx >= 0 {
+				nm = fi.sig.Params().At(p.idx).Name()
+			}
+			jf.Params = append(jf.Params, nm+": "+specStr(sp.pNN[i], sp.pCL[i]))
+		}
+		for j := range trackedResults(fi.sig) {
+			jf.Results = append(jf.Results, specStr(sp.rNN[j], sp.rCL[j]))
+		}
+		jfuncs = append(jfuncs, jf)
+	}
+	var unreach []string
+	for _, n := range pk.names {
+		if !pk.funcs[n].reach {
+			unreach = append(unreach, n)
+		}
+	}
+	var stale []string
+	for _, l := range [][]*allowEntry{allow.Use, allow.Store, allow.Index, allow.Assert, allow.Panic, allow.Conv} {
+		for _, e := range l {
+			if !e.used {
+				stale = append(stale, e.Key)
+			}
+		}
+	}
+	report := map[string]interface{}{
+		"entry":                  a.entry.name,
+		"functions":              jfuncs,
+		"unreachable_functions":  unreach,
+		"nodes":                  r.nodes,
+		"rounds":                 rounds,
+		"sites":                  jsites,
+		"use_total":              r.useTotal,
+		"use_certified":          r.useCert,
+		"use_reviewed":           r.useAllowed,
+		"use_open":               r.useOpen,
+		"store_total":            r.storeTotal,
+		"store_open":             r.storeOpen,
+		"conv_sites":             jconvs,
+		"conv_open":              r.convOpen,
+		"index_sites":            inv.index,
+		"index_open":             r.indexOpen,
+		"assert_sites":           inv.assert,
+		"assert_open":            r.assertOpen,
+		"panic_sites":            inv.panics,
+		"panic_open":             r.panicOpen,
+		"strict_classes":         strict,
+		"dirty_classes":          dirty,
+		"class_decisions":        a.demoted,
+		"problems":               pk.problems,
+		"stale_reviewed_keys":    stale,
+		"selfcheck_c01_failures": bad1,
+		"selfcheck_c03_failures": bad3,
+		"schema":                 sc,
+		"certified_c01":          len(bad1) == 0 && len(pk.problems) == 0,
+		"certified_c03":          len(bad3) == 0 && len(pk.problems) == 0,
+	}
+	data, err := json.MarshalIndent(report, "", " ")
+	must(err)
+	writeIfChanged(rep, append(data, '\n'))
+	for _, s := range stale {
+		r.lines = append(r.lines, "STALE reviewed key (matches no uncertified site): "+s)
+	}
+	for _, b := range bad1 {
+		r.lines = append(r.lines, "SELFCHECK c01: "+b)
+	}
+	for _, b := range bad3 {
+		r.lines = append(r.lines, "SELFCHECK c03: "+b)
+	}
 	return r
+}
+
+// normalizedCallees: functions all of whose call sites (in the program) bind the single result to a
+// variable that the next node normalises (RNormalize) -- the shape of parseStatement
+func (a *analysis) normalizedCallees() map[*fnInfo]bool {
+	ok := map[*fnInfo]bool{}
+	called := map[*fnInfo]bool{}
+	for _, fi := range a.funcs {
+		ok[fi] = true
+	}
+	for _, fi := range a.funcs {
+		for _, n := range fi.g.nodes {
+			if n.kind != kCall {
+				continue
+			}
+			called[n.callee] = true
+			good := len(n.rets) == 1 && n.rets[0] >= 0 && n.s1.kind == kSet && n.s1.rhs == rNormalize && n.s1.y == n.rets[0]
+			if !good {
+				ok[n.callee] = false
+			}
+		}
+	}
+	for fi := range ok {
+		if !called[fi] {
+			ok[fi] = false
+		}
+	}
+	return ok
 }
